@@ -27,7 +27,7 @@ def make_config(prop, rng, tier):
         "max_steps": rng.choice([30, 60, 100]),
         "clients": rng.randint(1, 4),
         "p_illegal": rng.choice([0.05, 0.15, 0.3]),
-        "p_interrupt": rng.choice([0.0, 0.0, 0.05]),
+        "p_interrupt": rng.choice([0.0, 0.05, 0.2]),
         "p_scribble": rng.choice([0.0, 0.03]),
         "nboxes": rng.randint(1, 6), "maxw": rng.choice([3, 4, 5]),
         "flatten_biclosed": rng.random() < 0.3,
@@ -868,9 +868,21 @@ class Driver:
         names = sorted(world.pool)
         if not names:
             return None
+        fired = world.counters.get("F5_fired", 0)
+        if fired != getattr(self, "last_f5", 0) and self.family != "cat":
+            # an operation has just been interrupted: probe what it may have left behind with
+            # requests that must be refused (and, after that, with ordinary work)
+            self.probe = 2
+            self.last_f5 = fired
+        if getattr(self, "probe", 0):
+            self.probe -= 1
+            a = sched.choice(names)
+            if self.probe % 2:
+                return self.construct_raw(True)
+            return {"op": "binop", "f": "then", "a": a, "b": sched.choice(names), "dst": self.dst()}
         op = self.pick(world, names)
         if op is not None and fault.random() < cfg["p_interrupt"] and op["op"] not in ("init", "scribble"):
-            op["interrupt_at"] = max(1, int(2000 ** fault.random()))
+            op["interrupt_at"] = max(1, int(fault.choice([60, 400, 2000]) ** fault.random()))
         return op
 
     def composable(self, world, names, a):
@@ -1008,6 +1020,13 @@ class Driver:
         elif kind == "curry":
             op["a"], op["n"], op["left"] = a, sched.randint(0, 2), sched.random() < 0.5
         elif kind == "raw":
+            return self.construct_raw(illegal)
+        return op
+
+    def construct_raw(self, illegal):
+        sched, gen, family = self.s["sched"], self.s["gen"], self.family
+        op = {"op": "construct", "kind": "raw", "dst": self.dst()}
+        if True:
             cls = family if family in ("monoidal", "rigid", "tensor", "circuit", "zx") else "monoidal"
             names_ = {"monoidal": ("x", "y"), "rigid": ("a", "b"), "tensor": ("2", "3"),
                       "circuit": ("qubit", "bit"), "zx": ("1",)}[cls]
